@@ -1,6 +1,7 @@
 import Snel.Model.Shard
 import Snel.Model.Compact
 import Snel.Model.Order
+import Snel.Gen.C04
 /-!
 # Row ORDER on the shard machine (property C04)
 
@@ -74,7 +75,11 @@ def chunks (n : Nat) : Nat → List Ev → List (List Ev)
 
 def zonesOfRows (n : Nat) (rows : List Ev) : List (List Ev) := chunks n (rows.length + 1) rows
 
-/-- Rows of one flushed segment as the zone files of type `ty` list them. -/
+/-- Rows of one flushed segment as the zone files of type `ty` list them: `Flusher::flush`
+pushes every event of the drained memtable (context buckets in key order, bucket order inside) to
+the bucket of its type — a stable partition by type. That nothing else touches the order between
+`memtable.take()` and the zone writer is checked on the source text
+(`tools/consts/C04.py` → `Snel.Gen.C04.flusherReorderingCalls`, `zonePlanReorderingCalls`). -/
 def flushRows (evs : List Ev) (ty : Nat) : List Ev := (memOrder evs).filter (·.ty == ty)
 
 /-- On-disk row order of one `segs` entry for type `ty`. -/
@@ -82,7 +87,7 @@ def entryRows (p : Nat × List Ev) (ty : Nat) : List Ev :=
   if p.1 < levelSpan then flushRows p.2 ty else p.2.filter (·.ty == ty)
 
 /-- `ZoneBatchSizer::target_rows(level)` with `z = event_per_zone`. -/
-def targetRows (z label : Nat) : Nat := z * (label / levelSpan + 1)
+def targetRows (z label : Nat) : Nat := z * (label / levelSpan + Snel.Gen.C04.targetRowsLevelOffset)
 
 /-- Zones (in id order) of type `ty` in directory `id`. -/
 def segZones (z : Nat) (s : Shard) (id ty : Nat) : List (List Ev) :=
